@@ -1,7 +1,7 @@
 (** C04_micro. Delete split at its schedule points: the mark hides the key under every interleaving of micro steps
     This file only pins statements: every theorem restates a lemma of proofs/ verbatim and is closed by it. *)
 From CacheD Require Import Base Sketch Model Window Micro.
-From CacheD.proofs Require Import Defs ApiProofs HistoryProofs.
+From CacheD.proofs Require Import Defs ApiProofs HistoryProofs StatsProofs.
 From CacheD.proofs Require Import MicroProofs.
 
 (** (C04 under every interleaving of caller micro steps): once the entry of k is soft-deleted (delete(k) passed
